@@ -30,9 +30,19 @@ def unrank(items, code):
     return out
 
 
-def build_perm(shape, cards, names, rel_codes, feat_code, ctc_trees, ctc_code):
+def names_ignored_by_constraint_eq() -> bool:
+    """Constraint equality of the code under test ignores the constraint's name (it does at the pinned
+    commit). Only then must a copy whose constraints are *named by position* (as the FeatureIDE and
+    SAT readers do) still be equal: every constraint has an equal counterpart, so this is 'equality
+    ignores the order of constraints'. If a future Constraint.__eq__ looks at names, the positional
+    naming modes are switched off rather than raising an alarm the property does not cover."""
+    return R.ctc('x', ('IMPLIES', 'A', 'B')) == R.ctc('y', ('IMPLIES', 'A', 'B'))
+
+
+def build_perm(shape, cards, names, rel_codes, feat_code, ctc_trees, ctc_code, ctc_names=0):
     """Independent rebuild with children of each relation, relations of each feature and the
-    constraint list permuted."""
+    constraint list permuted. ctc_names: 0 = every constraint keeps its own name, 1 = named by the new
+    position, 2 = named by the new position, descending."""
     n = R.n_features(shape)
     feats = [Feature(names[i]) for i in range(n)]
     rels = R.relations_of(shape)
@@ -43,8 +53,14 @@ def build_perm(shape, cards, names, rel_codes, feat_code, ctc_trees, ctc_code):
             _, cs = rels[ri]
             kids = unrank(cs, rel_codes[ri]) if len(cs) > 1 else cs
             feats[p].add_relation(Relation(feats[p], [feats[c] for c in kids], cards[ri][0], cards[ri][1]))
-    ctcs = [R.ctc('k%d' % i, t) for i, t in enumerate(ctc_trees)]
-    ctcs = unrank(ctcs, ctc_code) if len(ctcs) > 1 else ctcs
+    order = list(range(len(ctc_trees)))
+    order = unrank(order, ctc_code) if len(order) > 1 else order
+    if ctc_names and not names_ignored_by_constraint_eq():
+        ctc_names = 0
+    ctcs = []
+    for pos, i in enumerate(order):
+        nm = 'k%d' % (i if ctc_names == 0 else (pos if ctc_names == 1 else len(order) - 1 - pos))
+        ctcs.append(R.ctc(nm, ctc_trees[i]))
     return FeatureModel(feats[0], ctcs)
 
 
@@ -62,13 +78,13 @@ def default_ctcs(names):
     return [('IMPLIES', a, b), ('OR', ('NOT', c), b), ('EXCLUDES', b, c)]
 
 
-def perm_equal(shape, name_code, rel_codes, feat_code, ctc_code, with_hash, uniform=True) -> bool:
+def perm_equal(shape, name_code, rel_codes, feat_code, ctc_code, with_hash, uniform=True, ctc_names=0) -> bool:
     n = R.n_features(shape)
     names = unrank(POOL[:n], name_code)
     cards = uniform_cards(shape) if uniform else R.default_cards(shape)
     trees = default_ctcs(names)
     m1 = R.build(shape, cards, names=names, ctcs=[R.ctc('c%d' % i, t) for i, t in enumerate(trees)])
-    m2 = build_perm(shape, cards, names, rel_codes, feat_code, trees, ctc_code)
+    m2 = build_perm(shape, cards, names, rel_codes, feat_code, trees, ctc_code, ctc_names)
     if not (m1 == m2) or not (m2 == m1) or (m1 != m2) or not (m1 == m1):
         return False
     if with_hash and hash(m1) != hash(m2):
@@ -336,16 +352,16 @@ def replay_edit(desc, trees, desc2, trees2, label):
     return out
 
 
-def replay_perm(shape, name_code, rel_codes, feat_code, ctc_code):
+def replay_perm(shape, name_code, rel_codes, feat_code, ctc_code, ctc_names=0):
     shape = totuple(shape)
     try:
-        ok = perm_equal(shape, name_code, rel_codes, feat_code, ctc_code, True)
+        ok = perm_equal(shape, name_code, rel_codes, feat_code, ctc_code, True, True, ctc_names)
     except Exception as exc:
         return ['%s: %s' % (type(exc).__name__, exc)]
     if ok:
         return []
     return ['independently rebuilt, order-permuted copy is unequal or hashes differently: shape %s names-code %d rel-codes %r feature-code %d ctc-code %d'
-            % (R.shape_str(shape), name_code, rel_codes, feat_code, ctc_code)]
+            % (R.shape_str(shape), name_code, rel_codes, feat_code, ctc_code) + ['', ' (constraints of the copy named by position)', ' (constraints of the copy named by position, descending)'][ctc_names]]
 
 
 def batch_edits(max_n, lo, hi):
@@ -379,7 +395,7 @@ def batch_perm_native(max_n, seed, count):
         shape = rnd.choice(shapes)
         n = R.n_features(shape)
         rels = R.relations_of(shape)
-        args = [shape, rnd.randrange(math.factorial(n)), [rnd.randrange(math.factorial(len(cs))) for _, cs in rels], rnd.randrange(6), rnd.randrange(6)]
+        args = [shape, rnd.randrange(math.factorial(n)), [rnd.randrange(math.factorial(len(cs))) for _, cs in rels], rnd.randrange(6), rnd.randrange(6), rnd.randrange(3)]
         res['instances'] += 1
         res['native_runs'] += 1
         res['nontrivial'] += 1
@@ -448,15 +464,15 @@ def conditions(tier, seed):
                           aspect='reversed rebuilt copy is equal and hashes equally for every assignment of names (symbolic permutation of the pool)',
                           sample={'shape': R.shape_str(shape), 'symbolic': 'Lehmer code of the name assignment'}, validate=[(0,), (math.factorial(n) - 1,)]))
         rp = ', '.join('r%d: int' % i for i in range(len(rels)))
-        params = rp + ', fc: int, cc: int'
-        pre = ['0 <= r%d < %d' % (i, math.factorial(len(cs))) for i, (p, cs) in enumerate(rels)] + ['0 <= fc < 2', '0 <= cc < 6']
+        params = rp + ', fc: int, cc: int, cn: int'
+        pre = ['0 <= r%d < %d' % (i, math.factorial(len(cs))) for i, (p, cs) in enumerate(rels)] + ['0 <= fc < 2', '0 <= cc < 6', '0 <= cn < 3']
         rcodes = '[' + ', '.join('r%d' % i for i in range(len(rels))) + ']'
         nc_fixed = (math.factorial(n) * 3) // 7
-        val = [tuple([0] * len(rels) + [0, 0]), tuple(maxr + [1, 5])]
+        val = [tuple([0] * len(rels) + [0, 0, 0]), tuple(maxr + [1, 5, 1]), tuple(maxr + [0, 3, 2])]
         conds.append(Cond(name='c20_order_%d' % si, imports=imp, params=params, pre=pre,
-                          body='P.perm_equal(SHAPE_%d, %d, %s, fc, cc, True)' % (si, nc_fixed, rcodes), timeout=T,
-                          aspect='rebuilt copy with symbolic order of children / relations / constraints is equal and hashes equally',
-                          sample={'shape': R.shape_str(shape), 'symbolic': 'Lehmer codes of every child list, relation list, constraint list'}, validate=val))
+                          body='P.perm_equal(SHAPE_%d, %d, %s, fc, cc, True, True, cn)' % (si, nc_fixed, rcodes), timeout=T,
+                          aspect='rebuilt copy with symbolic order of children / relations / constraints (constraint names kept or assigned by position) is equal and hashes equally',
+                          sample={'shape': R.shape_str(shape), 'symbolic': 'Lehmer codes of every child list, relation list, constraint list; naming mode of the copied constraints'}, validate=val))
         cp, cpre, cexpr = cards_params(shape, allow_zero_max=True)
         conds.append(Cond(name='c20_cards_%d' % si, imports=imp, params=cp, pre=cpre,
                           body='P.perm_equal_cards(SHAPE_%d, %s)' % (si, cexpr), timeout=T,
@@ -503,6 +519,7 @@ def batches(tier, seed):
 def info(tier):
     return {
         'assumptions': ['feature names within a model are unique; names in the permutation conditions are a symbolic permutation of a fixed pool that contains case variants',
+                        'constraints of the permuted copy keep their names, or are named by their new position (ascending / descending) as the positional readers do; the positional modes are asserted only while Constraint.__eq__ itself ignores names (checked on every run)',
                         'hash() is only evaluated with concrete names and cardinalities (hashing a symbolic value enumerates)',
                         'structural single-point edits (move, split, merge, constraint operator/operand) have no symbolic payload: they are enumerated natively for every shape and counted as such',
                         'names are restricted to characters that cannot fake the str(Relation) layout: no [ ] . quotes'],
